@@ -219,10 +219,10 @@ pub fn compare_exact(src: &Xot, node: Node, re: &Xot, root: Node, allow_added_un
 /// the comparison for an indented serialisation: the reparsed tree may only have additional white-space-only text nodes, and
 /// none inside an element with text children, inside xml:space="preserve" scope or inside a suppressed element
 pub fn compare_indented(src: &Xot, node: Node, re: &Xot, root: Node, suppress: &[xot::NameId]) -> Option<String> {
-    fn go(src: &Xot, a: Node, re: &Xot, b: Node, preserve: bool, quiet_above: bool, suppress: &[xot::NameId]) -> Option<String> {
-        // same node up to children
+    fn go(src: &Xot, a: Node, re: &Xot, b: Node, preserve: bool, quiet_above: bool, suppress: &[xot::NameId], top: bool) -> Option<String> {
+        // same node up to children (an element written on its own also carries the declarations it inherits)
         let head = |x: &Xot, n: Node| -> String { node_head(x, n) };
-        let strip = |s: String| s.split(' ').filter(|t| !t.starts_with("N_:")).collect::<Vec<_>>().join(" ");
+        let strip = |s: String| s.split(' ').filter(|t| !(t.starts_with("N_:") || (top && t.starts_with('N')))).collect::<Vec<_>>().join(" ");
         if strip(head(src, a)) != strip(head(re, b)) {
             return Some(format!("node {} became {}", head(src, a), head(re, b)));
         }
@@ -252,7 +252,7 @@ pub fn compare_indented(src: &Xot, node: Node, re: &Xot, root: Node, suppress: &
                     _ => return Some("children differ by more than added white space".into()),
                 }
             }
-            if let Some(why) = go(src, *k, re, kb[j], preserve_here, mixed || suppressed, suppress) { return Some(why); }
+            if let Some(why) = go(src, *k, re, kb[j], preserve_here, mixed || suppressed, suppress, false) { return Some(why); }
             j += 1;
         }
         while j < kb.len() {
@@ -268,7 +268,17 @@ pub fn compare_indented(src: &Xot, node: Node, re: &Xot, root: Node, suppress: &
         }
         None
     }
-    go(src, node, re, root, false, false, suppress)
+    // the context the node stands in: white space is not added inside the scope of an ancestor's xml:space="preserve", inside an
+    // ancestor with text children, or inside a suppressed ancestor either
+    let mut preserve0 = false;
+    for a in src.ancestors(node).skip(1) {
+        if src.is_element(a) { if let Some(v) = src.attributes(a).get(src.xml_space_name()) { preserve0 = v == "preserve"; break; } }
+    }
+    let quiet0 = src.ancestors(node).skip(1).any(|a| match src.value(a) {
+        Value::Element(e) => suppress.contains(&e.name()) || src.children(a).any(|k| src.is_text(k)),
+        _ => false,
+    });
+    go(src, node, re, root, preserve0, quiet0, suppress, src.parent(node).is_some())
 }
 
 /// the node itself with its namespace and attribute nodes (no children)
@@ -387,6 +397,39 @@ pub fn run_tree_at(pid: &str, case: &str, xot: &Xot, reg: &Reg, root: Node, node
                         out.fail(&cid, "inner-node-roundtrip-differs", &format!("source has {:?} where the reparsed element has {:?} (position {}) — written as {:?}", a.get(i), b.get(i), i, s));
                     }
                 }
+            }
+        }
+    }
+}
+
+/// C14: an inner element written with indentation (and a suppress list that may name one of its ancestors): the white space
+/// added respects the context the element stands in
+pub fn run_tree_at_indented(case: &str, xot: &Xot, reg: &Reg, root: Node, node: Node, r: &mut Rng, out: &mut Out, stats: &mut Stats) {
+    if !xot.is_element(node) { return; }
+    let text = print_tree(xot, reg, root);
+    let (_, index) = preorder(xot, root);
+    let ni = match index.get(&node) { Some(i) => *i, None => return };
+    // the suppress list: empty, or the name of an ancestor, or of the node
+    let mut suppress: Vec<usize> = vec![];
+    let anc_names: Vec<usize> = xot.ancestors(node).filter_map(|a| xot.element(a).map(|e| reg.name_idx(e.name()))).collect();
+    if r.chance(1, 2) && !anc_names.is_empty() { suppress.push(*r.pick(&anc_names)); }
+    let p = RtParams { ser: SerParams { cdata: vec![], unescaped_gt: false, suppress }, decl: None, indent: true };
+    let cid = format!("{}n{}i", case, ni);
+    let o = observe_rt(xot, reg, node, &p);
+    let line = format!("{} {} | {} | {}@{} | {}", cid, reg.tables(), text, ni, rt_params_text(&p), o.line_tail);
+    out.case(&line);
+    stats.case(&line, true);
+    out.imp(&format!("{} {}", cid, rt_obs_text(&o)));
+    stats.bump("inner_node.serialised_indented");
+    if representable(xot, root).is_some() { return; }
+    if let (Ok(s), Some(Parsed::Ok { xot: x2, root: r2, .. })) = (&o.ser, &o.reparsed) {
+        if let Some(e2) = x2.children(*r2).find(|c| x2.is_element(*c)) {
+            let names: Vec<xot::NameId> = reg.names.iter().map(|x| x.2).collect();
+            let sup: Vec<xot::NameId> = p.ser.suppress.iter().map(|i| names[*i]).collect();
+            let in_context = xot.ancestors(node).skip(1).any(|a| xot.is_element(a) && (xot.attributes(a).get(xot.xml_space_name()).is_some() || xot.children(a).any(|k| xot.is_text(k)) || xot.element(a).map(|e| sup.contains(&e.name())).unwrap_or(false)));
+            if in_context { stats.bump("inner_node.indented_in_a_quiet_context"); }
+            if let Some(why) = compare_indented(xot, node, x2, e2, &sup) {
+                out.fail(&cid, "indentation-changed-content", &format!("{} — inner element written as {:?}", why, s));
             }
         }
     }
@@ -573,6 +616,13 @@ pub fn main_for(pid: &str) {
         let nq = if options { 4 } else { 1 };
         let queries: Vec<RtParams> = (0..nq).map(|_| random_rt_params(&mut r, &pool, options)).collect();
         run_tree(pid, &format!("c{}", k), &xot, &reg, root, &queries, &mut out, &mut stats, route_name);
+        if pid == "C14" {
+            // ... and up to two elements inside the tree, each written with indentation on its own
+            let inner: Vec<Node> = xot.descendants(root).filter(|n| xot.is_element(*n) && xot.parent(*n).map(|p| xot.is_element(p)).unwrap_or(false)).collect();
+            if !inner.is_empty() {
+                for _ in 0..2 { let n = *r.pick(&inner); run_tree_at_indented(&format!("c{}", k), &xot, &reg, root, n, &mut r, &mut out, &mut stats); }
+            }
+        }
         if pid == "C01" {
             // ... and up to two elements inside the tree, each serialised on its own
             let inner: Vec<Node> = xot.descendants(root).filter(|n| xot.is_element(*n) && xot.parent(*n).map(|p| xot.is_element(p)).unwrap_or(false)).collect();
